@@ -351,7 +351,8 @@ impl std::ops::BitOr for RowIdMask {
                 rhs_block_list -= allow_list;
                 Some(rhs_block_list)
             } else {
-                Some(rhs_block_list)
+                // LHS is allow all, so the RHS block list disappears
+                None
             }
         } else {
             None
